@@ -281,7 +281,10 @@ func (f *FileD) getStaticInfo(pipelineConfig *cfg.PipelineConfig, pluginKind pip
 			if err != nil {
 				logger.Fatalf("error on creating deadqueue of %s with type %q: %s", deadqueueType, pluginKind, err.Error())
 			}
-			deadqueueInfo.Config = config
+			// the registry entry is shared by all pipelines: the config goes into a copy
+			deadqueueInfoCopy := *deadqueueInfo
+			deadqueueInfoCopy.Config = config
+			deadqueueInfo = &deadqueueInfoCopy
 
 			// TODO: recursive deadqueue config
 			// deadqueueForDeadqueue := deadqueue.Get("deadqueue").MustMap()
